@@ -128,6 +128,7 @@ def check_case(z, rec):
 
     # ---- every (isotope, charge, radical): construct, mass, pack, matcher bits
     seen_bits = {}
+    mol_words, q_words = {}, {}
     hs = [0, 1, 2, 3, 4, 5, 6, None]
     k = 0
     for iso in [None] + sorted(dist):
@@ -186,6 +187,41 @@ def check_case(z, rec):
                         rec.fail('matcher-bits-collide', f'{sym}: {(iso, charge, rad)} and {seen_bits[key]} share bits',
                                  sig=sym)
                     seen_bits[key] = (iso, charge, rad)
+                    mol_words[(iso, charge, rad)] = (b1, b2, b3, b4)
+                # query side: the exact query atom of this state, every other field unconstrained
+                from chython import QueryContainer
+                from chython.periodictable import QueryElement
+                q = QueryContainer('layout')
+                ok, _ = rec.guard('query-compile', lambda: q.add_atom(QueryElement.from_atomic_number(z)(iso, charge=charge, is_radical=rad), 1))
+                if ok:
+                    ok, comps = rec.guard('query-compile', lambda: q._cython_compiled_query)
+                if ok:
+                    v1, v2, v3, v4 = struct.unpack_from('<QQQQ', comps[0], 4)
+                    q_words[(iso, charge, rad)] = (v1, v2, v3, v4)
+                    zz = z if z < 116 else 116
+                    want1 = (1 << (57 - zz)) if zz <= 56 else 1
+                    want2 = (0 if zz <= 56 else 1 << (120 - zz)) | 0xf
+                    want3 = 0x7fff | (0x7fff << 15) | (0x1f << 30) | (1 << (charge + 39)) | (1 << (45 if rad else 44)) | \
+                        ((1 << (iso - ref + 54)) if iso is not None else (0x3ffff << 46))
+                    if (v1 & 0x01ffffffffffffff, v2, v3, v4) != (want1, want2, want3, 0xffffffffffffffff):
+                        rec.fail('query-bits', f'{sym} iso={iso} charge={charge} rad={rad}: query words '
+                                               f'{v1 & 0x01ffffffffffffff:#x} {v2:#x} {v3:#x} {v4:#x}, layout gives {want1:#x} {want2:#x} '
+                                               f'{want3:#x} {0xffffffffffffffff:#x}', sig=sym)
+    # the matcher's test is "query word & molecule word == molecule word": decide every (query state, molecule state) pair of this
+    # element with it and compare with the meaning of the states
+    for (qi, qc, qr), qw in q_words.items():
+        for (mi, mc, mr), mw in mol_words.items():
+            got = all(a & b == b for a, b in zip((qw[0] & 0x01ffffffffffffff, qw[1], qw[2], qw[3]),
+                                                 (mw[0] & 0x01ffffffffffffff, mw[1], mw[2], mw[3])))
+            want = qc == mc and qr == mr and (qi is None or qi == mi)
+            if got != want:
+                rec.fail('layout-pairs', f'{sym}: query (iso={qi}, charge={qc}, radical={qr}) vs atom (iso={mi}, charge={mc}, radical={mr}): '
+                                         f'bit test says {"match" if got else "no match"}', sig=sym)
+                break
+        else:
+            continue
+        break
+    rec.count('layout-pairs', len(q_words) * len(mol_words))
     rec.sample('element', dict(symbol=sym, number=z, isotopes=sorted(dist), reference=ref))
 
 
